@@ -136,7 +136,8 @@ def run_check(prop, tier):
         native_viol = nres.get("violations", [])
         print(f"[{prop}] bounded native check: {nres.get('cases', 0)} cases, {len(native_viol)} violating", flush=True)
     # ---------------------------------------------------------------- verdict
-    os.makedirs(os.path.join(HERE, "replays"), exist_ok=True)
+    RDIR = os.environ.get("VF_REPLAY_DIR") or os.path.join(HERE, "replays")
+    os.makedirs(RDIR, exist_ok=True)
     lines, new_viol = [], 0
     reported_known = set()
     for v in native_viol:
@@ -148,7 +149,7 @@ def run_check(prop, tier):
                 reported_known.add(id(k))
                 lines.append(f"KNOWN-FINDING: property={prop} {k['text']}")
             continue
-        path = os.path.join(HERE, "replays", f"{prop}-{abs(hash(v.get('signature', ''))) % 10**8}.json")
+        path = os.path.join(RDIR, f"{prop}-{abs(hash(v.get('signature', ''))) % 10**8}.json")
         json.dump({"property": prop, "kind": "native-witness", "witness": v}, open(path, "w"), indent=1, default=str)
         lines.append(f"VIOLATION property={prop} replay={path}")
         new_viol += 1
@@ -161,7 +162,7 @@ def run_check(prop, tier):
                 reported_known.add(id(k))
                 lines.append(f"KNOWN-FINDING: property={prop} {k['text']}")
             continue
-        path = os.path.join(HERE, "replays", f"{prop}-{re.sub(r'[^A-Za-z0-9]+', '_', full)[:120]}.json")
+        path = os.path.join(RDIR, f"{prop}-{re.sub(r'[^A-Za-z0-9]+', '_', full)[:120]}.json")
         doc = {"property": prop, "kind": "failed-obligation", "obligation": full, "status": v["status"],
                "solver_output": v.get("detail", ""), "model": v.get("model", ""), "decisions": v.get("decisions", [])}
         if native_paths:
